@@ -466,6 +466,22 @@ func RunSession(s Session) mon.Result {
 		}
 		return false
 	}
+	// replySplit: a transport read boundary fell strictly inside reply k (it was not handed over in one read)
+	replySplit := func(k int) bool {
+		var rc callRec
+		conn.Do(func() { rc = h.recs[k] })
+		off := 0
+		for _, e := range conn.Log() {
+			if e.Kind != "read" {
+				continue
+			}
+			off += e.N
+			if rc.sent && off > rc.sentStart && off < rc.sentEnd {
+				return true
+			}
+		}
+		return false
+	}
 	bad := func(key, f string, a ...interface{}) mon.Result {
 		about := strings.HasPrefix(key, "c08/reply-") || strings.HasPrefix(key, "c08/result-")
 		if about && !strings.Contains(key, "echo-tail-shares-read-with-reply") && echoTailSharedRead() {
@@ -626,6 +642,14 @@ func RunSession(s Session) mon.Result {
 		if call.Plan == "forced" {
 			to = forcedTimeout
 		}
+		if call.Plan == "now" && call.TimeoutMs > 0 {
+			to = time.Duration(call.TimeoutMs) * time.Millisecond
+		}
+		if call.PauseBeforeMs > 0 {
+			// the session is left alone (longer than the previous call's timeout)
+			time.Sleep(time.Duration(call.PauseBeforeMs) * time.Millisecond)
+			obs["quiet_periods"]++
+		}
 		conn.Do(func() { h.cur = k; h.writesInCall = 0; genAtCallStart = conn.Generated() })
 		curCollide = call.Collide
 		curSlow = call.SlowWrite > 0
@@ -763,6 +787,12 @@ func RunSession(s Session) mon.Result {
 		if call.Notify != "" {
 			desc += " +notification"
 		}
+		if call.PauseBeforeMs > 0 {
+			desc += fmt.Sprintf(" after-%dms-quiet", call.PauseBeforeMs)
+		}
+		if call.TimeoutMs > 0 {
+			desc += fmt.Sprintf(" timeout=%dms", call.TimeoutMs)
+		}
 		if call.OneLine {
 			desc += fmt.Sprintf(" one-line=%dB", call.FillLen)
 			if call.NoNL {
@@ -822,6 +852,10 @@ func RunSession(s Session) mon.Result {
 			want := norm(string(rc.payload))
 			if rc.payload == nil || got != want {
 				hist = append(hist, desc+" → WRONG RESULT")
+				if call.Collide == "hash-line" && replySplit(k) {
+					return mon.Result{Verdict: mon.Inconclusive, Detail: "a reply with a '##' data line was not handed over in one read " +
+						"(generator precondition not met; a read boundary behind such a line is the known C02 frame-boundary finding)", Obs: obs}
+				}
 				if all := res.Result + string(res.RawResult); strings.Contains(all, "<hello") || strings.Contains(all, "<rpc ") {
 					what := "request"
 					if strings.Contains(all, "<hello") {
@@ -894,6 +928,12 @@ func RunSession(s Session) mon.Result {
 			}
 			straddleTimeoutSinceOK = false
 			oneLineSinceOK = false
+			if call.PauseBeforeMs > 0 && k > 0 && s.Calls[k-1].TimeoutMs > 0 && h.recs[k-1].outcome == "ok" {
+				obs["success_after_quiet_period_longer_than_previous_timeout"]++
+			}
+			if call.Collide == "hash-line" {
+				obs["success_reply_with_hash_hash_data_line"]++
+			}
 			if call.OneLine {
 				obs["success_one_line_reply"]++
 				if call.NoNL {
@@ -963,10 +1003,24 @@ func RunSession(s Session) mon.Result {
 				if !rc.sent {
 					return bad("c08/harness-reply-not-sent", "call %d (%s): the model never sent the planned-now reply (after_writes=%d)", k, call.Kind, call.AfterWrites)
 				}
+				early := retAt.Sub(start) < to/2 // a timeout error long before the timeout had elapsed (no load effect)
+				if call.TimeoutMs > 0 && !early {
+					return mon.Result{Verdict: mon.Inconclusive, Detail: "a set-up call with a short timeout timed out (load)", Obs: obs}
+				}
 				var tDel time.Time
 				var ok bool
 				conn.Do(func() { tDel, ok = h.deliveredTime(rc.sentEnd) })
 				deadline := start.Add(to)
+				lostMargin := lostMargin
+				if early && to/2 < lostMargin {
+					lostMargin = to / 2
+				}
+				for i := 0; early && !ok && i < 2000; i++ {
+					// the reply may still be on its way: it counts as delivered in time if it gets there
+					// a second before the deadline the call should have waited for
+					time.Sleep(500 * time.Microsecond)
+					conn.Do(func() { tDel, ok = h.deliveredTime(rc.sentEnd) })
+				}
 				if !ok || deadline.Sub(tDel) < lostMargin {
 					return mon.Result{Verdict: mon.Inconclusive, Detail: "planned-now call timed out but its reply had not been delivered " +
 						"in full a second before the deadline (reader slow)", Obs: obs}
@@ -976,6 +1030,10 @@ func RunSession(s Session) mon.Result {
 				}
 				cause := fmt.Sprintf("%s:echo=%v:after-%s", s.Version, s.Echo, h.prevOutcome)
 				switch {
+				case early && call.PauseBeforeMs > 0:
+					cause = fmt.Sprintf("%s:timeout-error-before-deadline:after-quiet-period-following-%s", s.Version, h.prevOutcome)
+				case early:
+					cause = fmt.Sprintf("%s:timeout-error-before-deadline:after-%s", s.Version, h.prevOutcome)
 				case s.ChanLog != "" && s.ChanLog != "healthy":
 					cause = fmt.Sprintf("%s:channel-log-%s:after-%s", s.Version, s.ChanLog, h.prevOutcome)
 				case curOneLine:
@@ -1220,6 +1278,8 @@ func init() {
 			"tty line discipline (a third of the sessions): every LF of the server->client stream (framing, data, echo) is delivered as CR LF by a transport wrapper in this package, with extra read boundaries between the CR and its LF (none / framing pairs / random / every pair); chunk sizes count the bytes as the server sent them (LF form), results are compared with the LF form",
 			"a fixed 1/7 of the replies is ONE line of 1-5 kB (no newline in the payload; 1.0: with or without a newline behind ]]>]]>), in every segmentation",
 			"a fixed 1/7 of the sessions has a channel log (options.WithChannelLog) whose sink refuses the k-th / every k-th write, writes short, or is capped at 300-4300 bytes; the library documents that channel log errors are ignored, so replies must be unaffected",
+			"profile idle: a call that gets its reply within a 250-400 ms timeout, then the session is left alone for that timeout plus 150-300 ms, then the next call; a planned-now call that returns a timeout error before half its timeout has elapsed is judged like any timed-out planned-now call, after waiting (<= 1 s) for its reply to be delivered; workers run with GODEBUG=asynctimerchan=1 (what a main module with a go line below 1.23 gets; /verif/go.mod says go 1.20)",
+			"a fixed share of the replies in sessions with whole / >=4096-byte reads, no unmarked echo, no tty cuts carries a data line that reads exactly '##': the model hands such a reply over in ONE read (checked against the event log), where the pinned library files it whole; a read boundary behind the inner line is the known C02 frame-boundary finding and is not generated here",
 			"a planned-now reply is sent either the moment the request is complete (before the echo of the trailing return) or after the call's last transport write (nothing follows the reply)",
 			"the server answers with message-id=\"N\" in double quotes, N the id of the request, and replies never precede the complete request",
 			"random reply bodies and request arguments contain none of: ']]>]]>', '#', '</rpc>', 'message-id', 'subscription-id' (checked by brute force by the generator); " +
@@ -1259,5 +1319,8 @@ func init() {
 		Parallel:    func(string) int { return 4 },
 		CaseTimeout: 240 * time.Second,
 		Procs:       func(string, int) int { return 4 },
+		// the harness module's go line (1.20) already gives the pre-1.23 timer channels (a fired timer's
+		// tick stays in its channel across Reset); pinned so that a later bump of go.mod cannot hide it
+		WorkerEnv: func(string, int) []string { return []string{"GODEBUG=asynctimerchan=1"} },
 	})
 }
